@@ -28,16 +28,21 @@ package main
 
 import (
 	"bytes"
+	"context"
 	"encoding/json"
 	"fmt"
 	"math/big"
 	"os"
+	"os/exec"
+	"runtime/debug"
 	"sort"
 	"strings"
+	"time"
 
 	"github.com/kaptinlin/gozod"
 	"github.com/kaptinlin/gozod/core"
 	gzjs "github.com/kaptinlin/gozod/jsonschema"
+	"github.com/kaptinlin/gozod/types"
 	lib "github.com/kaptinlin/jsonschema"
 
 	"verifharness/hx"
@@ -54,6 +59,13 @@ func main() {
 			fmt.Fprintln(os.Stderr, "translator error:", err)
 			os.Exit(4)
 		}
+		return
+	}
+	// child mode: convert ONE self-referential schema and serialise the document; a conversion that builds an unbounded
+	// schema tree or a pointer-cyclic document dies with a fatal (unrecoverable) stack overflow, so this runs in a
+	// process of its own with a small stack limit (see cycleProbe)
+	if name := os.Getenv("C07_CYC"); name != "" {
+		cycleChild(name)
 		return
 	}
 	if err := runC07(hx.ParseFlags()); err != nil {
@@ -370,6 +382,66 @@ func convertReal(real core.ZodSchema, o Opt) (c compiled) {
 
 func b01(b bool) string { return hx.B01(b) }
 
+// cycNode: a self-referential struct type for FromStruct (the field schema of Next is a Lazy built by
+// types.createLazySchemaForType).
+type cycNode struct {
+	Val  int      `gozod:"required,min=1"`
+	Next *cycNode `gozod:"optional"`
+}
+
+var cycNames = []string{"selfdirect", "selfopt", "fromstruct"}
+
+func cycSchema(name string) core.ZodSchema {
+	switch name {
+	case "selfdirect": // the Lazy resolves to an object that holds the Lazy itself
+		var l *types.ZodLazy[any]
+		l = types.LazyAny(func() any { return gozod.Object(core.ObjectSchema{"v": gozod.Int(), "next": l}) })
+		return l
+	case "selfopt": // … that holds an Optional() copy of the Lazy
+		var l *types.ZodLazy[any]
+		l = types.LazyAny(func() any { return gozod.Object(core.ObjectSchema{"v": gozod.Int(), "next": l.Optional()}) })
+		return l
+	case "fromstruct":
+		return types.FromStruct[cycNode]()
+	}
+	panic("cycSchema " + name)
+}
+
+func cycleChild(name string) {
+	debug.SetMaxStack(64 << 20)
+	js, err := gozod.ToJSONSchema(cycSchema(name))
+	if err != nil {
+		fmt.Println("error")
+		return
+	}
+	raw, err := json.Marshal(js)
+	if err != nil {
+		fmt.Println("marshal-error")
+		return
+	}
+	_, tree, err := canonBytes(raw)
+	if err != nil {
+		fmt.Println("decode-error")
+		return
+	}
+	_, cerr := lib.NewCompiler().Compile(raw)
+	fmt.Println(b01(cerr == nil && refsResolve(tree)) + " finite-document")
+}
+
+// cycleProbe: "1 finite-document" when ToJSONSchema returns a document that serialises, compiles and whose references
+// resolve; "crash:<name>" when the child process dies (fatal stack overflow) or does not finish.
+func cycleProbe(name string) string {
+	ctx, cancel := context.WithTimeout(context.Background(), 90*time.Second)
+	defer cancel()
+	cmd := exec.CommandContext(ctx, os.Args[0])
+	cmd.Env = append(os.Environ(), "C07_CYC="+name)
+	outb, err := cmd.Output()
+	if err != nil {
+		return "crash:" + name
+	}
+	return strings.TrimSpace(string(outb))
+}
+
 // jsonable: the value Parse returned, with map[any]any (ZodMap's result type) turned into map[string]any.
 func jsonable(v any) any {
 	switch x := v.(type) {
@@ -585,6 +657,11 @@ func runC07(cfg hx.Config) error {
 	if p := os.Getenv("C07_RAWDOCS"); p != "" {
 		r.rawDocs, _ = os.Create(p)
 		defer r.rawDocs.Close()
+	}
+	// self-referential schemas whose conversion must end in a finite document (judged on the implementation alone)
+	for _, name := range cycNames {
+		out.Count("schema:cyc")
+		out.Emit("c07 doc ( cyc "+name+" )", cycleProbe(name))
 	}
 	corpus := corpusSchemas()
 	seen := map[string]bool{}
